@@ -127,6 +127,9 @@ func c04Gen(r *RNG, tier string) []json.RawMessage {
 	// the render pass: callbacks of the application that write alignments while the table is being rendered
 	out = append(out, c04PassGen(r, tier, nextReg)...)
 
+	// items of every kind, cells holding cells; items that re-declare their sizes (c04_r6.go)
+	out = append(out, c04R6Gen(r, tier, nextReg)...)
+
 	// every assignment of {unset, left, right, centre} to column 0 and to each column, for 1, 2 and 3 columns
 	for ncols := 1; ncols <= 3; ncols++ {
 		total := 1
